@@ -113,6 +113,8 @@ func c05BuildWorld(c c05Case) error {
 	os.Symlink("/w/outside/dirlinks/plain", "/w/outside/dirlinks/inner-abs-own")
 	mustWrite("/w/outside/dirlinks/deeper/leaf", can(), 0644)
 	os.Symlink("../plain", "/w/outside/dirlinks/deeper/inner-up-own")
+	os.Symlink("../dir", "/w/outside/dirlinks/to-other-dir")        // a dereferenced directory leading on to another outside directory
+	os.Symlink("../../dir/sub", "/w/outside/dirlinks/deeper/to-sub") // and the same one level further down
 	os.Symlink("../src/a.txt", "/w/outside/back")
 	os.Symlink("file.txt", "/w/outside/chain")
 	mustWrite("/w/src-evil/secret.txt", can(), 0644)
@@ -321,6 +323,9 @@ func c05Run(env *fw.Env, c c05Case) fw.Result {
 	// per entry checks
 	for _, e := range obs.Entries {
 		name := strings.TrimSuffix(e.Name, "/")
+		if strings.HasPrefix(name, "/") || name == ".." || strings.HasPrefix(name, "../") || strings.Contains(name, "/../") || strings.HasSuffix(name, "/..") {
+			return viol("entry-name-leaves-archive-root", "the slug has an entry named %q", e.Name)
+		}
 		s, inS := S[name]
 		switch e.Type {
 		case '2': // symlink entry
